@@ -36,7 +36,7 @@ def _genome(rnd, k, prefix, ncontigs):
 	return contigs
 
 
-def _write(path, contigs, rnd, width, eol, final_newline, gz, blank_desc):
+def _write(path, contigs, rnd, width, eol, final_newline, gz, blank_desc, members=1):
 	lines = []
 	for i, c in enumerate(contigs):
 		lines.append(b'>contig%d' % i + (b' some description ATGAC' if blank_desc else b''))
@@ -46,6 +46,14 @@ def _write(path, contigs, rnd, width, eol, final_newline, gz, blank_desc):
 		else:
 			lines += [c[j:j + width] for j in range(0, len(c), width)]
 	data = eol.join(lines) + (eol if final_newline else b'')
+	if gz and members > 1:
+		# a gzip file may consist of several members (cat a.gz b.gz, bgzip, pigz -i): it decompresses to their concatenation
+		cuts = sorted(rnd.sample(range(1, max(2, len(data))), min(members - 1, max(1, len(data) - 1)))) if len(data) > 2 else []
+		parts = [data[a:b] for a, b in zip([0] + cuts, cuts + [len(data)])]
+		with open(path, 'wb') as f:
+			for part in parts:
+				f.write(gzip.compress(part))
+		return
 	with (gzip.open(path, 'wb') if gz else open(path, 'wb')) as f:
 		f.write(data)
 
@@ -77,7 +85,18 @@ def run_case(case):
 			gz = v > 0 and rnd.random() < .5
 			ext = rnd.choice(['.fasta', '.fa', '.fna', '.fasta.gz', '.gz', '', '.txt'])       # the name says nothing about the content
 			path = os.path.join(tmp, f'g{v}{ext}')
-			_write(path, cs, rnd, width, eol, final_newline=(v == 0 or rnd.random() < .6), gz=gz, blank_desc=rnd.random() < .5)
+			_write(path, cs, rnd, width, eol, final_newline=(v == 0 or rnd.random() < .6), gz=gz, blank_desc=rnd.random() < .5, members=rnd.choice([1, 1, 2, 4]))
+			if case.get('fail_before') and v == 2:
+				# a computation that fails part-way (truncated gzip of a larger genome) must not influence the next one
+				bad = os.path.join(tmp, 'bad.fasta.gz')
+				big = b''.join(b'>x%d\n' % i + bytes(rnd.choice(b'ACGT') for _ in range(4000)) + b'\n' for i in range(12))
+				blob = gzip.compress(big)
+				open(bad, 'wb').write(blob[:int(len(blob) * .6)])
+				try:
+					calc_file_signature(ks, SequenceFile(bad, 'fasta', 'auto'))
+					problems.append('a truncated gzip file was accepted')
+				except Exception:
+					pass
 			try:
 				got = list(map(int, calc_file_signature(ks, SequenceFile(path, 'fasta', 'auto'))))
 			except Exception as e:
@@ -97,7 +116,7 @@ def bounded(tier, seed):
 	for i in range(N):
 		k = rnd.choice([1, 2, 3, 4, 5])
 		prefix = rnd.choice(['A', 'AT', 'ATG', 'GC', 'ATGAC'][:4 if k > 1 else 5])
-		c = {'seed': rnd.randrange(10 ** 9), 'k': k, 'prefix': prefix, 'ncontigs': rnd.choice([1, 2, 3, 5]), 'variants': 5, 'lower': rnd.choice([0, .3, 1])}
+		c = {'seed': rnd.randrange(10 ** 9), 'k': k, 'prefix': prefix, 'ncontigs': rnd.choice([1, 2, 3, 5]), 'variants': 5, 'lower': rnd.choice([0, .3, 1]), 'fail_before': i % 5 == 0}
 		r = run_case(c)
 		n += 1
 		if len(sample) < 2 and i % 50 == 7:
@@ -107,5 +126,5 @@ def bounded(tier, seed):
 			if len(failures) >= 4:
 				break
 	return {'tool': 'real calc_file_signature / calc_signature on generated FASTA files against the brute-force specification',
-	        'bound': f'{N} genomes of <= 5 contigs (matches planted flush with both contig ends on both strands, junctions that would match if contigs were joined) x 5 rewrites each: per-contig reverse complement, contig shuffle, per-letter case, line width 1..80/unwrapped, LF/CRLF, final newline or not, gzip or not, 7 file extensions',
+	        'bound': f'{N} genomes of <= 5 contigs (matches planted flush with both contig ends on both strands, junctions that would match if contigs were joined) x 5 rewrites each: per-contig reverse complement, contig shuffle, per-letter case, line width 1..80/unwrapped, LF/CRLF, final newline or not, gzip or not (single- and multi-member), 7 file extensions; every fifth genome has a failing computation (truncated gzip) interleaved',
 	        'cases': n, 'failures': failures, 'samples': sample}
